@@ -23,6 +23,7 @@ import (
 	"fmt"
 	"io"
 	"math"
+	"runtime"
 	"strconv"
 	"strings"
 
@@ -393,6 +394,9 @@ func roundTrip(c *hx.Ctx, es []osm.Element) {
 		streams := make([][]osm.Element, cores)
 		emit := func(e osm.Element, g int) error {
 			streams[g] = append(streams[g], cloneElem(e)) // goroutine g is the only writer of streams[g]
+			if cores > 1 {
+				runtime.Gosched() // let the other reader goroutines take blocks too
+			}
 			return nil
 		}
 		err := osm.ReadPBFWithOptions(bytes.NewReader(data), emit, osm.ReadOptions{Cores: cores})
@@ -546,7 +550,7 @@ func genBig(c *hx.Ctx) []osm.Element {
 // ---- hand-built single blocks for the reader ---------------------------------------------------
 
 func genIdx(r *hx.Rand, n int) uint32 {
-	if r.Chance(1, 25) {
+	if r.Chance(1, 40) {
 		return uint32(n + r.Intn(3)) // out of range
 	}
 	if n == 0 {
